@@ -67,3 +67,9 @@ package influx
 //@ func GetNameWithVersion
 //@   trusted builds the versioned measurement name in a fresh buffer
 //@   assigns nothing
+
+// origin(n): the measurement name without its 5-character version suffix
+//@ spec func origin(n string) string
+//@ func GetOriginMstName
+//@   trusted_ensures result == origin(nameWithVer)
+//@   trusted_assigns nothing
